@@ -14,7 +14,7 @@ BUILD = os.path.join(VERIF, 'build')
 import atexit
 _MAIN_PID = os.getpid()
 def _cleanup_build():
-    if os.getpid() == _MAIN_PID:
+    if os.getpid() == _MAIN_PID and not os.environ.get('VERIF_KEEP_BUILD'):
         shutil.rmtree(os.path.join(BUILD, 'p%d' % _MAIN_PID), ignore_errors=True)
 atexit.register(_cleanup_build)
 MEM_KB = 12 * 1024 * 1024          # ulimit -v per tool process
